@@ -212,9 +212,11 @@ M_TABLE.fixed_gen = "\n".join([
     "table_harness!(#[kani::unwind(3)] u14_free_list, b_u14_free_list());",
     "table_harness!(#[kani::unwind(3)] u14_next_free_grow_and_reject, b_u14_next_free_grow_and_reject());",
     "table_harness!(#[kani::unwind(5)] u14_remove_chain, b_u14_remove_chain());",
+    "table_harness!(#[kani::unwind(6)] u14_free_entries_mirror, b_u14_free_entries_mirror());",
+    "table_harness!(#[kani::unwind(6)] u14_free_entries_partial_claim, b_u14_free_entries_partial_claim());",
 ])
 # (u8_* Kani harnesses exist in the contract file but exhaust CBMC's memory; U8 is carried by the Verus fragment unit)
-for n in ["u14_free_list", "u14_next_free_grow_and_reject", "u14_remove_chain"]:
+for n in ["u14_free_list", "u14_next_free_grow_and_reject", "u14_remove_chain", "u14_free_entries_mirror", "u14_free_entries_partial_claim"]:
     M_TABLE.harnesses.append(H(n, "U14", kind="bounded", bound="48-byte entries, fill mark <= 7, one freed slot / 3-part chain"))
 for k in ["fixed32", "fixed4096", "fixed_max", "multipart"]:
     M_TABLE.harnesses.append(H("u9_value_validate_" + k, "U9"))
@@ -382,7 +384,7 @@ PROPS["C13"] = {
 }
 
 PROPS["C10"] = {
-    "kani_units": ["U11"],
+    "kani_units": ["U11", "U14"],
     "verus_units": [],
     "level": "other",
     "technique": "Kani/CBMC contracts on the real packed-node decoder and on the representability check of the encoder",
